@@ -7,7 +7,7 @@ ID = 'C06'
 EXES = ['release']
 RULE = ('each event is one public Fq/Fr call (operator in one of its six forms, neg, inverse, pow, is_zero, is_even, ==) on '
         'operands drawn from limb-pattern classes (canonical and Montgomery-targeted), related pairs (a,a) (a,-a) (a,a+-1) '
-        '(a,2^256-a), fixed boundary values and uniform values; the answer is compared with Python integer arithmetic mod p. '
+        '(a,2^256-a), pairs and squares aimed at Montgomery quotient digits in {0, 1, 2^63, 2^64-1}, fixed boundary values and uniform values; the internal Fq squaring / doubling / tripling / halving through the cfg hook; the answer is compared with Python integer arithmetic mod p. '
         'distinct = distinct (op, form, operands); non-trivial = not both operands in {0, 1}')
 ASSUMPTIONS = ['operands enter through the 32-byte from_slice path and leave through to_slice (both judged on their own in C13/C07)']
 
@@ -16,7 +16,7 @@ EVENTS_PER_CASE = 250
 
 
 def cases(tier, seed):
-    n = 480 if tier == 'quick' else 24000
+    n = 960 if tier == 'quick' else 48000
     return [('fr' if i % 2 else 'fq', EVENTS_PER_CASE) for i in range(n)]
 
 
@@ -25,9 +25,9 @@ def required(tier):
     for f in ('fr', 'fq'):
         for op in ('add', 'sub', 'mul'):
             req += ['%s.%s.%s' % (f, op, fm) for fm in FORMS]
-        req += ['%s.neg.v' % f, '%s.neg.r' % f, '%s.inverse' % f, '%s.inverse/zero' % f, '%s.pow' % f, '%s.is_zero' % f, '%s.eq' % f,
+        req += ['%s.neg.v' % f, '%s.neg.r' % f, '%s.inverse' % f, '%s.inverse/zero' % f, '%s.pow' % f, '%s.is_zero' % f, '%s.eq' % f, '%s.result.is_zero' % f, '%s.result.eq' % f,
                 '%s.chain' % f]
-    req.append('fq.is_even')
+    req += ['fq.is_even', 'fq.raw.sqr', 'fq.raw.double', 'fq.raw.triple', 'fq.raw.div2']
     return req
 
 
@@ -36,15 +36,22 @@ def run(ctx, spec):
     p = q if f == 'fq' else r
     rng = ctx.rng
     lines, exp = [], []
-    ops = ['add', 'sub', 'mul', 'add', 'sub', 'mul', 'neg', 'inverse', 'pow', 'is_zero', 'eq'] + (['is_even'] if f == 'fq' else [])
+    ops = ['add', 'sub', 'mul', 'add', 'sub', 'mul', 'neg', 'inverse', 'pow', 'is_zero', 'eq'] + (['is_even', 'raw', 'raw'] if f == 'fq' else [])
     for _ in range(n):
         op = ops[rng.randrange(len(ops))]
         a, b, pc = gen.field_pair(rng, p)
         if op in ('add', 'sub', 'mul'):
             fm = FORMS[rng.randrange(6)]
             v = (a + b) % p if op == 'add' else (a - b) % p if op == 'sub' else a * b % p
-            lines.append('_ %s.%s.%s %s %s' % (f, op, fm, h32(a), h32(b)))
+            post = v == 0 or rng.random() < 0.08
+            lines.append('%s %s.%s.%s %s %s' % ('t' if post else '_', f, op, fm, h32(a), h32(b)))
             exp.append(('%s.%s.%s' % (f, op, fm), 'ok ' + h32(v), (op, fm, a, b), a > 1 or b > 1, pc))
+            if post:
+                # the zero test and == on the RESULT of an operation (a second representation of zero prints as zero)
+                lines.append('_ %s.is_zero $t' % f)
+                exp.append(('%s.result.is_zero' % f, 'bool ' + ('true' if v == 0 else 'false'), None, False, pc))
+                lines.append('_ %s.eq $t %s' % (f, h32(v)))
+                exp.append(('%s.result.eq' % f, 'bool true', None, False, pc))
         elif op == 'neg':
             fm = 'vr'[rng.randrange(2)]
             lines.append('_ %s.neg.%s %s' % (f, fm, h32(a)))
@@ -68,6 +75,24 @@ def run(ctx, spec):
         elif op == 'is_even':
             lines.append('_ fq.is_even %s' % h32(a))
             exp.append(('fq.is_even', 'bool ' + ('true' if a % 2 == 0 else 'false'), (op, a), a > 1, pc))
+        elif op == 'raw':
+            # the dedicated squaring / doubling / halving used inside point and tower arithmetic (cfg hook), Fq only
+            which = rng.randrange(5)
+            if which < 2:
+                if rng.random() < 0.5:
+                    a = gen.mont_digit_square(rng, q)
+                    pc = 'mont-digits-square'
+                lines.append('_ raw.fq.sqr %s' % h32(a))
+                exp.append(('fq.raw.sqr', 'ok ' + h32(a * a % q), ('sqr', a), a > 1, pc))
+            elif which == 2:
+                lines.append('_ raw.fq.double %s' % h32(a))
+                exp.append(('fq.raw.double', 'ok ' + h32(2 * a % q), ('dbl', a), a > 1, pc))
+            elif which == 3:
+                lines.append('_ raw.fq.triple %s' % h32(a))
+                exp.append(('fq.raw.triple', 'ok ' + h32(3 * a % q), ('tpl', a), a > 1, pc))
+            else:
+                lines.append('_ raw.fq.div2 %s' % h32(a))
+                exp.append(('fq.raw.div2', 'ok ' + h32(a * pow(2, -1, q) % q), ('div2', a), a > 1, pc))
     # a chained computation through registers: ((a*b + c) - d)^2 * inverse, every intermediate printed and judged
     a, b, _ = gen.field_pair(rng, p)
     c, d, _ = gen.field_pair(rng, p)
